@@ -13,17 +13,6 @@ OUT = ROOT + "/checker/selftest/mutants"
 ENV = dict(os.environ, GOFLAGS="-mod=mod", GOPROXY="off", GOSUMDB="off", GOTOOLCHAIN="local", GOWORK="off")
 
 M = []
-# ---- round 4/5 rules
-m("C11-R10-list-drops-default", "C11", "C11.R10", "builder/list.go", '\tif ctx.UseConstructor && !source.ListFixed {\n', '\tif false {\n')
-m("C02-R11-unguarded-deref", "C02", "C02.R11", "builder/struct.go", '\t\t\tnextSource = nextSource.PointerInner\n\t\t}\n\t\tif !nextSource.Struct {', '\t\t\tnextSource = nextSource.PointerInner\n\t\t\tfor nextSource.Pointer {\n\t\t\t\tnextIDCode = jen.Parens(jen.Op("*").Add(nextIDCode.Clone()))\n\t\t\t\tnextSource = nextSource.PointerInner\n\t\t\t}\n\t\t}\n\t\tif !nextSource.Struct {')
-m("C07-R10-nil-path", "C07", "C07.R10", "builder/pointer.go", 'nextInner, nextID, err := gen.Build(ctx, sourceID.Deref(source), source.PointerInner, target, path)', 'nextInner, nextID, err := gen.Build(ctx, sourceID.Deref(source), source.PointerInner, target, nil)')
-m("C16-R8-split-tags", "C16", "C16.R8", "pkgload/pkgload.go", '\tif buildTags != "" {\n', '\tif len(strings.Split(buildTags, ",")) > 0 && buildTags != "" {\n')
-m("C13-R4-fresh-seen", "C13", "C13.R4", "xtype/type.go", '\t\trt.MapKey = typeOf(value.Key(), seen)', '\t\trt.MapKey = TypeOf(value.Key())')
-m("C03-R10-basic-extra", "C03", "C03.R10", "builder/basic.go", 'return source.Basic && target.Basic &&\n\t\tsource.BasicType.Kind() == target.BasicType.Kind()', 'return source.Basic && target.Basic && !target.Named &&\n\t\tsource.BasicType.Kind() == target.BasicType.Kind()')
-m("C01-R10-explicit-other", "C01", "C01.R10", "generator/generator.go", '\t\t\tif check.Explicit && !check.ReturnError {', '\t\t\tif current.Explicit && !check.ReturnError {')
-m("C12-R16-one-direction", "C12", "C12.R16", "method/index.go", 'if satisfiesContext(entry.Def.Context, def.Context) || satisfiesContext(def.Context, entry.Def.Context) {', 'if satisfiesContext(entry.Def.Context, def.Context) {')
-m("C07-R11-replace-last", "C07", "C07.R11", "builder/errorpath.go", 'func (e ErrorPath) Index(code *jen.Statement) ErrorPath { return append(e, errElmIndex{code}) }', 'func (e ErrorPath) Index(code *jen.Statement) ErrorPath {\n\tif len(e) > 8 {\n\t\treturn e\n\t}\n\treturn append(e, errElmIndex{code})\n}')
-
 def m(id, prop, rule, file, old, new, count=1):
     M.append(dict(id=id, prop=prop, rule=rule, file=file, old=old, new=new, count=count))
 
@@ -349,6 +338,17 @@ m("C17-O8-skip-empty", "C17", "C17.O8", "generator/generate.go", '\t\tif err := 
 m("C18-R5-counter", "C18", "C18.R5", "xtype/enum.go", 'func loadEnum(t *types.Named, cfg *enum.Config) *Enum {\n', 'var enumLoads int\n\nfunc loadEnum(t *types.Named, cfg *enum.Config) *Enum {\n\tenumLoads++\n')
 m("C19-R7-stop-at-blank", "C19", "C19.R7", "config/parse/line.go", '\t\tline := strings.TrimSpace(line)\n', '\t\tline := strings.TrimSpace(line)\n\t\tif line == "" && len(lines) > 0 {\n\t\t\tbreak\n\t\t}\n')
 m("C03-R8-exported-only", "C03", "C03.R8", "enum/detect.go", '\t\tif !ok {\n\t\t\tcontinue\n\t\t}\n', '\t\tif !ok || !c.Exported() {\n\t\t\tcontinue\n\t\t}\n')
+
+# ---- round 4/5 rules
+m("C11-R10-list-drops-default", "C11", "C11.R10", "builder/list.go", '\tif ctx.UseConstructor && !source.ListFixed {\n', '\tif false {\n')
+m("C02-R11-unguarded-deref", "C02", "C02.R11", "builder/struct.go", '\t\t\tnextSource = nextSource.PointerInner\n\t\t}\n\t\tif !nextSource.Struct {', '\t\t\tnextSource = nextSource.PointerInner\n\t\t\tfor nextSource.Pointer {\n\t\t\t\tnextIDCode = jen.Parens(jen.Op("*").Add(nextIDCode.Clone()))\n\t\t\t\tnextSource = nextSource.PointerInner\n\t\t\t}\n\t\t}\n\t\tif !nextSource.Struct {')
+m("C07-R10-nil-path", "C07", "C07.R10", "builder/pointer.go", 'nextInner, nextID, err := gen.Build(ctx, sourceID.Deref(source), source.PointerInner, target, path)', 'nextInner, nextID, err := gen.Build(ctx, sourceID.Deref(source), source.PointerInner, target, nil)')
+m("C16-R8-split-tags", "C16", "C16.R8", "pkgload/pkgload.go", '\tif buildTags != "" {\n', '\tif len(strings.Split(buildTags, ",")) > 0 && buildTags != "" {\n')
+m("C13-R4-fresh-seen", "C13", "C13.R4", "xtype/type.go", '\t\trt.MapKey = typeOf(value.Key(), seen)', '\t\trt.MapKey = TypeOf(value.Key())')
+m("C03-R10-basic-extra", "C03", "C03.R10", "builder/basic.go", 'return source.Basic && target.Basic &&\n\t\tsource.BasicType.Kind() == target.BasicType.Kind()', 'return source.Basic && target.Basic && !target.Named &&\n\t\tsource.BasicType.Kind() == target.BasicType.Kind()')
+m("C01-R10-explicit-other", "C01", "C01.R10", "generator/generator.go", '\t\t\tif check.Explicit && !check.ReturnError {', '\t\t\tif current.Explicit && !check.ReturnError {')
+m("C12-R16-one-direction", "C12", "C12.R16", "method/index.go", 'if satisfiesContext(entry.Def.Context, def.Context) || satisfiesContext(def.Context, entry.Def.Context) {', 'if satisfiesContext(entry.Def.Context, def.Context) {')
+m("C07-R11-replace-last", "C07", "C07.R11", "builder/errorpath.go", 'func (e ErrorPath) Index(code *jen.Statement) ErrorPath { return append(e, errElmIndex{code}) }', 'func (e ErrorPath) Index(code *jen.Statement) ErrorPath {\n\tif len(e) > 8 {\n\t\treturn e\n\t}\n\treturn append(e, errElmIndex{code})\n}')
 
 def run(cmd, cwd=None):
     return subprocess.run(cmd, cwd=cwd, env=ENV, shell=isinstance(cmd, str), capture_output=True, text=True, errors='replace')
